@@ -75,7 +75,7 @@ PROPS = {
         "assumptions": COMMON_ASSUMPTIONS + ["the vAMM is driven through its public execute/query entry points on cosmwasm-std mock dependencies"],
     },
     "C15": {
-        "lean_modules": ["Perp.Props.C15", "Perp.Props.EngineGuards", "Perp.Props.C15Band", "Perp.Props.SatTrace", "Perp.Props.SatFlows", "Perp.Props.SatC15", "Perp.Props.SatEWitness", "Perp.Props.SatE"],
+        "lean_modules": ["Perp.Props.C15", "Perp.Props.EngineGuards", "Perp.Props.C15Band", "Perp.Props.SatTrace", "Perp.Props.SatFlows", "Perp.Props.SatC15", "Perp.Props.SatEWitness", "Perp.Props.SatE", "Perp.Props.C15Requote"],
         "runs": lambda tier, seed: [vamm_run(tier, seed)] + world_runs(tier, seed),
         "rule": VAMM_RULE,
         "assumptions": COMMON_ASSUMPTIONS,
